@@ -1,5 +1,15 @@
 WRAPS = ['add_constraint', 'set_obj', 'set_obj_fn', 'set_minim', 'set_maxim', 'set_unbounded', 'solve']
 
+
+
+def classify_crash(cr):
+    """Fixed case 5 (FactoredLP with no basis and no constant basis) is the witness of finding C15-flp-constbasisid-underflow;
+    every other crash/hang keeps the generic kind and is a violation."""
+    if cr.get('case') == 5 and 'index >= 0 && index < size()' in (cr.get('detail', '') + cr.get('stderr_tail', '')):
+        return 'FactoredLP', 'abort_no_basis_no_const'
+    return 'C15', cr['kind']
+
+
 SPEC = {
     'id': 'C15',
     'lean_modules': ['AITB.Props.C15'],
@@ -11,6 +21,7 @@ SPEC = {
     'harness': 'harness/c15.cpp',
     # the calls LpSolveWrapper.cpp makes into lp_solve are recorded at link time (the library is not modified)
     'harness_flags': ['-Wl,--wrap=' + w for w in WRAPS],
+    'classify_crash': classify_crash,
     'level': 'translation_validation',
     'timeout': {'quick': 600, 'thorough': 3000},
     'rule': 'fixed witnesses first, then seeded random instances',
